@@ -270,6 +270,10 @@ func nextWriteAfter(c *Ctx, fn *ssa.Function, call ssa.CallInstruction, sb ssa.V
 					for _, a := range as {
 						ops = append(ops, c.term(fn, a))
 					}
+				} else if _, as, isF := concatTemplate(arg); isF {
+					for _, a := range as {
+						ops = append(ops, c.term(fn, a))
+					}
 				} else if inner, isCall := arg.(*ssa.Call); isCall {
 					for _, a := range inner.Call.Args {
 						ops = append(ops, c.term(fn, a))
